@@ -426,7 +426,7 @@ def cli(argv=None, mode='output'):
 
         try:
             opb = args.generator.build_formula(args, formula_class=OPB)
-        except (CLIError, ValueError) as e:
+        except (CLIError, ValueError, OverflowError) as e:
             args.generator.subparser.error(e)
         except RuntimeError as e:
             raise InternalBug(e) from e
